@@ -154,6 +154,10 @@ fn tsel_set<'a>(res: &ResultItem<'a, TextResource>, ranges: &Value) -> Option<Ve
 /// Returns (outcome, result handle, api json)
 pub fn read(ctx: &Ctx, op: &Op) -> (String, i64, Value) {
     let style = ctx.style;
+    if op.ev == "Parse" {
+        let (outcome, api) = crate::query::parse_event(&op.a, style);
+        return (outcome, 0, api);
+    }
     let store = &ctx.store;
     let a = &op.a;
     let r = catch_unwind(AssertUnwindSafe(|| -> (i64, Value) {
@@ -418,4 +422,4 @@ pub fn read(ctx: &Ctx, op: &Op) -> (String, i64, Value) {
 
 pub const READ_EVENTS: &[&str] =
     &["Lookup", "TextSel", "AnnTextOf", "OffsetReport", "Utf8Byte", "ByteToChar", "TextOp", "TestRelation", "RelatedText",
-      "TestRelationRow", "RelatedRow", "Validate", "WebAnno"];
+      "TestRelationRow", "RelatedRow", "Validate", "WebAnno", "Parse"];
